@@ -118,6 +118,13 @@ def hNextStep (P : HParams α n) (hnew h : α) (reject : Bool) : α :=
   let hnew := if Num.abs hnew > Num.abs P.hmax then P.posneg * Num.abs P.hmax else hnew
   if reject then P.posneg * Num.fmin (Num.abs hnew) (Num.abs h) else hnew
 
+/-- `v.iter().any(|c| !c.is_finite())` negated: `c − c` is NaN exactly for the non-finite values of `f64` -/
+def vecFinite (v : Vec α n) : Bool := v.toArray.all fun c => !(Num.isNaN (c - c))
+
+/-- `if ynew.iter().any(|v| !v.is_finite()) { err = Float::INFINITY }` (RK23, DOPRI5): a candidate state that is not
+    finite is never accepted; `1.0 / 0.0` is `f64::INFINITY` -/
+def finiteGuard (ynew : Vec α n) (err : α) : α := if vecFinite ynew then err else Num.one / Num.zero
+
 /-- the time a step ends at: `xph = if last { xend } else { x + h }` -/
 def landX (last : Bool) (xend x h : α) : α := if last then xend else x + h
 
